@@ -1,6 +1,8 @@
 #!/bin/bash
 # Regression test of the checks themselves: every seeded change must be reported as a VIOLATION by its property's check.
+# Prints, per change, caught/MISSED and the number of failing cases (oracle failures / correspondence mismatches):
+# a change caught by only one or two random cases is a fragile catch and gets its trigger added to the boundary stream.
 # usage: tools/run_seeded.sh [parallelism=5]
 cd "$(dirname "$0")/.."
 J=${1:-5}
-ls -d seeded/C??_* | xargs -P $J -I{} bash -c 'n=$(basename {}); p=${n%_*}; if grep -q '"obsolete"' seeded/$n/meta.json; then echo "$n obsolete"; exit 0; fi; out=$(OMP_NUM_THREADS=2 VERIF_NCPU=3 tools/try_mutant.sh $p /verif/seeded/$n/patch.diff 2>&1); if echo "$out" | grep -q "VIOLATION property=$p"; then echo "$n caught"; else echo "$n MISSED: $(echo "$out" | tail -1)"; fi' | sort
+ls -d seeded/C??_* | xargs -P $J -I{} bash -c 'n=$(basename {}); p=${n%_*}; if grep -q '"obsolete"' seeded/$n/meta.json; then echo "$n obsolete"; exit 0; fi; out=$(OMP_NUM_THREADS=2 VERIF_NCPU=3 tools/try_mutant.sh $p /verif/seeded/$n/patch.diff 2>&1); st=$(echo "$out" | grep -E "^\[$p\]" | tail -1 | sed -E "s/.*corr=([0-9]+)\/([0-9]+) bad oracle_fail=([0-9]+) known=([0-9]+).*/corr_bad=\2 oracle_fail=\3 known=\4/"); if echo "$out" | grep -q "VIOLATION property=$p"; then echo "$n caught $st"; else echo "$n MISSED: $(echo "$out" | tail -1)"; fi' | sort
